@@ -279,10 +279,14 @@ func (db *DB) Session(config *Session) *DB {
 				PreparedStmtDB: preparedStmt,
 			}
 		default:
+			// (Close and Reset write the field under the lock)
+			preparedStmt.Mux.RLock()
+			stmts := preparedStmt.Stmts
+			preparedStmt.Mux.RUnlock()
 			tx.Statement.ConnPool = &PreparedStmtDB{
 				ConnPool: db.Config.ConnPool,
 				Mux:      preparedStmt.Mux,
-				Stmts:    preparedStmt.Stmts,
+				Stmts:    stmts,
 			}
 		}
 		txConfig.ConnPool = tx.Statement.ConnPool
